@@ -156,7 +156,7 @@ def drive(seq, mode):
             except zmq.Again:
                 continue
             bearing = req["t"] in ("ok", "raise", "preset", "counter", "shutdown") and not dead
-            tmo = 8000 if bearing else 25
+            tmo = 30000 if bearing else 25
             while True:
                 if sock.poll(tmo):
                     transcript.append([i, canon_reply(cloudpickle.loads(sock.recv()))])
@@ -171,7 +171,7 @@ def drive(seq, mode):
             ended = not th.is_alive()
         if proc is not None:
             try:
-                rc = proc.wait(5)
+                rc = proc.wait(30)
                 ended = True
                 note = f"rc={rc}"
             except subprocess.TimeoutExpired:
